@@ -263,6 +263,77 @@ fn eval(e: &Expr, k: usize, big: &mut f64) -> f64 {
     v
 }
 
+// ------------------------------------------------------------------ evaluation with a running error bound
+//
+// Two trees that denote the same function may associate a sum differently (`a + (b + c)` written without parentheses
+// is read `(a + b) + c`); when the sum cancels and the result is then divided by, the two binary64 evaluations differ
+// by far more than any tolerance relative to the magnitudes met.  The comparison therefore also accepts a difference
+// that first-order error propagation explains: every node returns its value and a bound of the absolute error
+// accumulated so far (u = 2^-52 per operation; infinite where the node is not differentiable or not defined nearby).
+
+const U: f64 = 2.220446049250313e-16;
+
+fn lit_e(v: f64) -> (f64, f64) {
+    (v, U * v.abs())
+}
+fn func_e(f: &str, (a, ea): (f64, f64)) -> (f64, f64) {
+    let v = func(f, a);
+    let d = match f {
+        "sin" | "cos" => ea,
+        "tan" | "cot" => (1.0 + v * v) * ea,
+        "log" => if a.abs() > 2.0 * ea { ea / ((a.abs() - ea) * std::f64::consts::LN_10) } else { f64::INFINITY },
+        _ => if a.abs() > 2.0 * ea { ea / (a.abs() - ea) } else { f64::INFINITY },
+    };
+    (v, d + 4.0 * U * v.abs() + if f == "tan" || f == "cot" { 4.0 * U * (1.0 + v * v) * a.abs() } else { 0.0 })
+}
+fn fact_e((a, ea): (f64, f64)) -> (f64, f64) {
+    let v = fact(a);
+    (v, 1.5 * ea + 2.0 * U * v.abs())
+}
+fn binop_e(op: &str, (a, ea): (f64, f64), (b, eb): (f64, f64)) -> (f64, f64) {
+    let v = binop(op, a, b);
+    let e = match op {
+        "Add" | "Sub" => ea + eb,
+        "Mul" | "CDot" => a.abs() * eb + b.abs() * ea + ea * eb,
+        "Div" => {
+            if b.abs() > 2.0 * eb { ea / (b.abs() - eb) + a.abs() * eb / (b.abs() * (b.abs() - eb)) } else { f64::INFINITY }
+        }
+        "Rem" => {
+            // piecewise a - b*trunc(a/b): safe only away from the jumps
+            let q = a / b;
+            let jump = (q - q.round()).abs() * b.abs();
+            let e = ea + eb * q.abs().ceil();
+            if b.abs() > 2.0 * eb && jump > 4.0 * e { e } else { f64::INFINITY }
+        }
+        "Caret" => {
+            if a == 0.0 || !(a.abs() > 2.0 * ea) {
+                if ea == 0.0 && eb == 0.0 { 0.0 } else { f64::INFINITY }
+            } else if a < 0.0 && eb > 0.0 {
+                f64::INFINITY
+            } else {
+                v.abs() * (b.abs() * ea / (a.abs() - ea) + a.abs().ln().abs() * eb) * 2.0
+            }
+        }
+        _ => f64::INFINITY,
+    };
+    (v, e + 4.0 * U * v.abs())
+}
+
+fn eval_e(e: &Expr, k: usize) -> (f64, f64) {
+    match e {
+        Expr::Number(x) => lit_e(*x),
+        Expr::Variable(s) => lit_e(env(k, s)),
+        Expr::Constant(c) => lit_e(constant(const_name(c))),
+        Expr::Function { func: f, inner } => func_e(fn_name(f), eval_e(inner, k)),
+        Expr::UnaryOpPrefix { value, .. } => {
+            let (v, e) = eval_e(value, k);
+            (-v, e)
+        }
+        Expr::UnaryOpPostfix { value, .. } => fact_e(eval_e(value, k)),
+        Expr::BinaryOp { op, lhs, rhs, .. } => binop_e(op_name(op), eval_e(lhs, k), eval_e(rhs, k)),
+    }
+}
+
 // ------------------------------------------------------------------ reference reader (conventional precedence)
 
 #[derive(Debug, Clone)]
@@ -290,6 +361,27 @@ fn reval(e: &R, k: usize, big: &mut f64) -> f64 {
         *big = if v.is_nan() { f64::INFINITY } else { v.abs() };
     }
     v
+}
+
+fn reval_e(e: &R, k: usize) -> (f64, f64) {
+    match e {
+        R::Num(x) => lit_e(*x),
+        R::Var(s) => lit_e(env(k, s)),
+        R::Const(c) => lit_e(constant(c)),
+        R::Fn(f, a) => func_e(f, reval_e(a, k)),
+        R::Neg(a) => {
+            let (v, e) = reval_e(a, k);
+            (-v, e)
+        }
+        R::Fact(a) => fact_e(reval_e(a, k)),
+        R::Bin(op, a, b) => binop_e(op, reval_e(a, k), reval_e(b, k)),
+    }
+}
+
+/// the difference is explained by the rounding errors of the two evaluations (64-fold margin on the first-order bound)
+fn explained(got: (f64, f64), want: (f64, f64)) -> bool {
+    let e = got.1 + want.1;
+    e.is_finite() && got.0.is_finite() && want.0.is_finite() && (got.0 - want.0).abs() <= 64.0 * e
 }
 
 enum Reading {
@@ -483,7 +575,7 @@ fn judge(tokens: &[Token], p: &Piped, intended: Option<&R>) -> Result<(), String
                 let mut big = 0.0;
                 let want = reval(r, k, &mut big);
                 let got = eval(&p.unfolded, k, &mut big);
-                if !close(got, want, big) {
+                if !close(got, want, big) && !explained(eval_e(&p.unfolded, k), reval_e(r, k)) {
                     return Err(format!("parsed tree gives {got:?} at point {k}, the conventional reading gives {want:?}"));
                 }
             }
@@ -510,7 +602,7 @@ fn judge(tokens: &[Token], p: &Piped, intended: Option<&R>) -> Result<(), String
                 let mut big = 0.0;
                 let want = eval(&p.folded, k, &mut big);
                 let got = eval(b, k, &mut big);
-                if !close(got, want, big) {
+                if !close(got, want, big) && !explained(eval_e(b, k), eval_e(&p.folded, k)) {
                     return Err(format!(
                         "the displayed text {:?} denotes another function: {got:?} instead of {want:?} at point {k}",
                         p.text
@@ -796,9 +888,9 @@ fn render_at(rng: &mut Rng, g: &G, need: u32, redundant: bool, out: &mut String)
     match g {
         G::Num(s) => out.push_str(s),
         G::Var(c) => out.push(*c),
-        G::Const(c) => out.push_str(c),
+        G::Const(c) => out.push_str(&respell(rng, c, true)),
         G::Fn(f, a) => {
-            out.push_str(f);
+            out.push_str(&respell(rng, f, false));
             out.push('(');
             render_at(rng, a, 0, redundant, out);
             out.push(')');
@@ -858,6 +950,21 @@ fn render_at(rng: &mut Rng, g: &G, need: u32, redundant: bool, out: &mut String)
     }
     if wrap {
         out.push(')');
+    }
+}
+
+/// another spelling of a function / constant name: upper case, mixed case, or (constants) the symbol `Display` prints
+fn respell(rng: &mut Rng, name: &str, constant: bool) -> String {
+    match rng.below(8) {
+        0 => name.to_ascii_uppercase(),
+        1 => name.chars().enumerate().map(|(i, c)| if (i + rng.below(2) as usize) % 2 == 0 { c.to_ascii_uppercase() } else { c }).collect(),
+        2 if constant => match name {
+            "pi" => "π".to_string(),
+            "tau" => "τ".to_string(),
+            "phi" => "ϕ".to_string(),
+            _ => "E".to_string(),
+        },
+        _ => name.to_string(),
     }
 }
 
@@ -986,6 +1093,206 @@ pub fn generate(seed: u64, thorough: bool, emit: &mut dyn FnMut(String)) {
             emit(format!("lex {}", req_string(&text)));
         } else {
             emit(format!("str {}", req_string(&text)));
+        }
+    }
+    generate_hardening(seed, thorough, emit);
+}
+
+// ------------------------------------------------------------------ hardening families
+
+/// the whole vocabulary: every function, constant and operator (`%` and `·` included), several literals and variables
+fn full_pool() -> Vec<Token> {
+    let mut v = vec![
+        Token::Number(2.0), Token::Number(3.0), Token::Number(2.5), Token::Number(0.0), Token::Number(1.0), Token::Number(0.5),
+        Token::Number(10.0), Token::Variable("x".into()), Token::Variable("y".into()), Token::Variable("z".into()),
+        Token::Variable("x".into()), Token::LParen, Token::LParen, Token::RParen, Token::RParen, Token::RParen,
+    ];
+    for c in [Constants::Pi, Constants::E, Constants::Tau, Constants::Phi] {
+        v.push(Token::Constant(c));
+    }
+    for f in [Functions::Sin, Functions::Cos, Functions::Tan, Functions::Cot, Functions::Log, Functions::Ln] {
+        v.push(Token::Function(f));
+    }
+    for o in [
+        Operators::Add, Operators::Sub, Operators::Sub, Operators::Mul, Operators::Mul, Operators::Div, Operators::Div, Operators::Caret,
+        Operators::Caret, Operators::Fac, Operators::Rem, Operators::Rem, Operators::CDot, Operators::CDot,
+    ] {
+        v.push(Token::Operator(o));
+    }
+    v
+}
+
+fn generate_hardening(seed: u64, thorough: bool, emit: &mut dyn FnMut(String)) {
+    let mut rng = Rng::new(seed ^ 0xC19_5CA1E);
+    // ---- (1) biased token sequences of 4..14 tokens over the WHOLE vocabulary: cos tan cot log ln, e tau phi, % and ·
+    //      (the conventional-reading clause abstains on % and · and on unparenthesised power chains; folding, display
+    //      and re-parsing are judged for all of them; model comparison for all)
+    let pool = full_pool();
+    let k = if thorough { 300_000 } else { 24_000 };
+    for _ in 0..k {
+        let len = 4 + rng.below(11) as usize;
+        let mut ts: Vec<Token> = Vec::with_capacity(len + 2);
+        let mut open = 0usize;
+        while ts.len() < len {
+            let j = ts.len();
+            let t = rng.pick(&pool).clone();
+            let starts = matches!(t, Token::Number(_) | Token::Variable(_) | Token::Constant(_) | Token::LParen | Token::Function(_) | Token::Operator(Operators::Sub));
+            let prev_operand = j > 0 && matches!(ts[j - 1], Token::Number(_) | Token::Variable(_) | Token::Constant(_) | Token::RParen | Token::Operator(Operators::Fac));
+            if j == 0 && !starts {
+                continue;
+            }
+            // after an operand prefer an operator, after an operator prefer an operand (5 times out of 6); juxtaposition
+            // (operand after operand) is still reached
+            if j > 0 && rng.chance(5, 6) && prev_operand == starts && !matches!(t, Token::Operator(Operators::Fac)) {
+                continue;
+            }
+            // a closing parenthesis mostly where one is open and an operand precedes
+            if matches!(t, Token::RParen) && rng.chance(7, 8) && (open == 0 || !prev_operand) {
+                continue;
+            }
+            match &t {
+                Token::LParen => open += 1,
+                Token::RParen => open = open.saturating_sub(1),
+                _ => {}
+            }
+            let is_fn = matches!(t, Token::Function(_));
+            ts.push(t);
+            // a function is followed by its parenthesis 7 times out of 8
+            if is_fn && rng.chance(7, 8) {
+                ts.push(Token::LParen);
+                open += 1;
+            }
+        }
+        // close what is open, most of the time
+        if rng.chance(4, 5) {
+            let prev_operand = matches!(ts[ts.len() - 1], Token::Number(_) | Token::Variable(_) | Token::Constant(_) | Token::RParen | Token::Operator(Operators::Fac));
+            if !prev_operand {
+                ts.push(rng.pick(&[Token::Variable("x".into()), Token::Number(2.0), Token::Constant(Constants::E)]).clone());
+            }
+            for _ in 0..open {
+                ts.push(Token::RParen);
+            }
+        }
+        emit(format!("toks {}", words(&ts)));
+    }
+    // ---- (2) every function and constant name in every spelling the lexer may meet: lower, upper, mixed case, symbols,
+    //      glued to letters and digits
+    let names = ["sin", "cos", "tan", "cot", "log", "ln", "pi", "e", "tau", "phi"];
+    for name in names {
+        let up = name.to_ascii_uppercase();
+        let cap: String = name.chars().enumerate().map(|(i, c)| if i == 0 { c.to_ascii_uppercase() } else { c }).collect();
+        let alt: String = name.chars().enumerate().map(|(i, c)| if i % 2 == 1 { c.to_ascii_uppercase() } else { c }).collect();
+        for sp in [name.to_string(), up, cap, alt] {
+            for text in [
+                sp.clone(), format!("{sp}(x)"), format!("2{sp}(x)"), format!("{sp}(x)^2"), format!("x{sp}"), format!("{sp}x"), format!("{sp}2"),
+                format!("2{sp}"), format!("{sp}{sp}"), format!("{sp} (x + 1)!"), format!("-{sp}(-x)"), format!("{sp}^2"), format!("({sp})"),
+                format!("y*{sp}(x)/{sp}(y)"), format!("{sp}(x){sp}(y)"), format!("x % {sp}(y)"), format!("2·{sp}(x)"), format!("{sp}(2x^2)"),
+            ] {
+                emit(format!("str {}", req_string(&text)));
+                emit(format!("lex {}", req_string(&text)));
+            }
+        }
+    }
+    for text in [
+        "π", "τ", "ϕ", "φ", "Π", "2π", "πx", "π^2", "2πx", "τ/2", "ϕ^2 - ϕ - 1", "eE", "Ee", "ee", "xe", "ex", "e^x", "E^x", "2e", "e2", "pie", "epi", "PIE",
+        "pipi", "sinx", "sin", "sinsin(x)", "sin(sin(x))", "lnx", "ln(e)", "LOG(10)", "logx(2)", "taun", "tan", "cotx", "x·y", "x%y", "x % y % z", "x·y·z",
+        "x % y * z", "x * y % z", "x / y % z", "x % y ^ 2", "-x % y", "x % -y", "2x % 3y", "x!%y", "2·3", "x×y", "x÷y", "1.", ".5", ".", "..", "1.2.3", "00",
+        "007", "1.0", "1.00", "0.0", "0.", ".0", "-0", "1e5", "2E3", "1e", "1e-5", "x.y", "x.5", "5.x", "0x10", "1_000", "1,5", "x^y^z", "x^-y^-z", "2^3^2",
+        "(x)(y)", "(x)2", "2(x)", "x(2)", "(2)(3)", "x!y", "x!!", "x!(y)", "(x)!", "-x!", "-(x!)", "(-x)!", "2!x", "x y", " x ", "", " ", "()", "(())", ")(",
+    ] {
+        emit(format!("str {}", req_string(text)));
+        emit(format!("lex {}", req_string(text)));
+    }
+    // ---- (3) very deep nesting: totality must not depend on the depth (500 levels; 2000 in the thorough tier)
+    let mut depths = vec![200usize, 500];
+    if thorough {
+        depths.push(2000);
+    }
+    for n in depths {
+        let texts = [
+            format!("{}x{}", "(".repeat(n), ")".repeat(n)),
+            format!("{}x", "-".repeat(n)),
+            format!("{}x{}", "sin(".repeat(n), ")".repeat(n)),
+            format!("{}x{}", "2^(".repeat(n), ")".repeat(n)),
+            format!("{}x{}", "-(1+".repeat(n), ")".repeat(n)),
+            format!("{}x{}", "(y*".repeat(n), ")".repeat(n)),
+            format!("x{}", "!".repeat(n)),
+            format!("x{}", "^2".repeat(n)),
+            format!("x{}", "+y".repeat(n)),
+            format!("x{}", "*2/y".repeat(n)),
+            "(".repeat(n),
+            ")".repeat(n),
+            format!("{}x{}", "(".repeat(n), ")".repeat(n - 1)),
+            format!("{}x{}", "(".repeat(n - 1), ")".repeat(n)),
+            format!("{}x", "sin(".repeat(n)),
+            "2x".repeat(n),
+            "xy".repeat(n),
+        ];
+        for text in texts {
+            emit(format!("str {}", req_string(&text)));
+        }
+    }
+    // ---- (4) literals with 17 and more significant digits, halfway cases of the decimal-to-binary rounding, literals at
+    //      the ends of the binary64 range (lexer only: the tree printer spells numbers in shortest form)
+    let z = |n: usize| "0".repeat(n);
+    let long_literals = [
+        "0.1234567890123456789".to_string(), "12345678901234567890.5".to_string(), "3.14159265358979323846264338327950288x".to_string(),
+        "9007199254740993".to_string(), "9007199254740992.5".to_string(), "9007199254740993.0000000000000000000001".to_string(),
+        "0.1000000000000000055511151231257827021181583404541015625".to_string(), "1.00000000000000011102230246251565404236316680908203125".to_string(),
+        "1.00000000000000011102230246251565404236316680908203124".to_string(), "1.00000000000000011102230246251565404236316680908203126".to_string(),
+        "0.30000000000000004".to_string(), "0.299999999999999988897769753748".to_string(), "123456789012345678".to_string(), "0.99999999999999994".to_string(),
+        "0.99999999999999995".to_string(), "179769313486231570000".to_string(), format!("17976931348623157{}", z(292)), format!("17976931348623158{}", z(292)),
+        format!("17976931348623159{}", z(292)), format!("1{}", z(309)), format!("0.{}1", z(322)), format!("0.{}2", z(323)), format!("0.{}3", z(323)),
+        format!("0.{}24703282292062327", z(323)), format!("0.{}24703282292062328", z(323)), format!("0.{}1", z(400)), format!("0.{}22250738585072014", z(307)),
+        format!("0.{}22250738585072011", z(307)), format!("2.5 + 0.{}7x - 1{}.25y", z(17), z(20)), "00000000000000000000000001.5".to_string(),
+        format!("1.{}", z(40)), format!("1.{}1", z(40)), "4.35".to_string(), "4.349999999999999644728632".to_string(), "8.41".to_string(),
+    ];
+    for text in long_literals {
+        emit(format!("lex {}", req_string(&text)));
+        emit(format!("lex {}", req_string(&format!("x^{text} - {text}y"))));
+    }
+    let m = if thorough { 20_000 } else { 1500 };
+    for _ in 0..m {
+        // random literals of 16..40 significant digits, with and without a point
+        let nd = 16 + rng.below(25) as usize;
+        let mut digits: String = (0..nd).map(|_| char::from(b'0' + rng.below(10) as u8)).collect();
+        if digits.starts_with('0') {
+            digits.replace_range(0..1, "7");
+        }
+        let text = match rng.below(4) {
+            0 => digits.clone(),
+            1 => format!("0.{}{digits}", z(rng.below(20) as usize)),
+            2 => {
+                let p = 1 + rng.below(nd as u64 - 1) as usize;
+                format!("{}.{}", &digits[..p], &digits[p..])
+            }
+            _ => format!("{digits}{}", z(rng.below(30) as usize)),
+        };
+        emit(format!("lex {}", req_string(&format!("{text}x + sin({text})"))));
+    }
+    // ---- (5) the value tests of the folder next to 0 and 1 at every distance (literals of at most 15 significant digits
+    //      are spelled by the printer exactly as written, so the whole pipeline is compared)
+    let mut ks: Vec<usize> = (1..=14).collect();
+    ks.extend([20, 30, 100, 300, 318]);
+    for k in ks {
+        let tiny = format!("0.{}1", z(k));
+        let mut lits = vec![tiny.clone()];
+        if k <= 14 {
+            lits.push(format!("1.{}1", z(k - 1)));
+            lits.push(format!("0.{}", "9".repeat(k)));
+        }
+        if k <= 300 {
+            lits.push(format!("1{}", z(k)));
+        }
+        for l in lits {
+            for text in [
+                format!("x / {l}"), format!("x ^ {l}"), format!("{l} ^ x"), format!("{l} * x"), format!("x * {l}"), format!("{l}x"), format!("x + {l}"),
+                format!("{l} + x"), format!("x - {l}"), format!("{l} - x"), format!("{l} ^ 0"), format!("0 ^ {l}"), format!("0 * {l}"), format!("{l} / 1"),
+                format!("{l} / {l}"), format!("({l} - {l}) * x"), format!("x ^ ({l} * 0)"), format!("sin({l}) + 0 * cos({l})"), format!("-{l} * 0 + y"),
+                format!("y % {l}"), format!("{l}y^{l}"),
+            ] {
+                emit(format!("str {}", req_string(&text)));
+            }
         }
     }
 }
